@@ -19,7 +19,7 @@
   C13-3 (guard of `bignum.Polynomial.Factorize`) applied: `mulThenAdd_keeps_degree_two_part`,
   `constant_polynomial_spec`, `factorize_guard_spec`.
 -/
-import Lattigo.Proofs.PolyEvalCheb
+import Lattigo.Proofs.PolyEvalRun
 
 namespace Lattigo.Props.C13
 open Lattigo.Model.PolyEval
@@ -97,35 +97,38 @@ theorem depth_guard_gap (k : Nat) (hk : 1 ≤ k) :
     depthCheck (2 ^ k) = k ∧ polynomialDepth (2 ^ k) + 1 = k + 1 :=
   Lattigo.Model.PolyEval.depth_guard_gap k hk
 
-/-- **too_few_levels**: below the guard the machine refuses with `err` before emitting any operation -/
+/-- **too_few_levels**: below the guard the machine refuses with `err` before emitting any operation
+    (every mode: also the scale-invariant one, which consumes no level — see `bfv_refused_below_depth`) -/
 theorem too_few_levels (env : Env) (polys : List (List Int)) (mapping : Option (List (List Nat)))
     (lazy : Bool) (inLevel inScale tScale : Nat) (x : List Int)
     (h : inLevel < depthCheck ((polys.headD []).length - 1)) :
     run env polys mapping lazy inLevel inScale tScale x = ([], "err", none) := by
-  have h' : inLevel < depthCheck ((polys.head?.getD []).length - 1) := by simpa using h
-  have hdeg : ¬ ((polys.head?.getD []).length - 1 = 0) := by
-    intro h0; rw [h0] at h'; simp [depthCheck] at h'
-  simp [run, evaluate, h', hdeg, setP, ExceptT.run, bind, ExceptT.bind, ExceptT.mk, ExceptT.bindCont, StateT.bind,
-    StateT.run, modify, modifyGet, MonadStateOf.modifyGet, StateT.modifyGet, throw, throwThe,
-    MonadExceptOf.throw, ExceptT.lift, monadLift, MonadLift.monadLift, pure, ExceptT.pure,
-    StateT.pure, Functor.map, StateT.map]
+  have hdeg : ¬ ((polys.headD []).length - 1 = 0) := by
+    intro h0; rw [h0] at h; simp [depthCheck] at h
+  have h' : ((inLevel : Nat) : Int) < ((depthCheck ((polys.headD []).length - 1) : Nat) : Int) := by
+    exact_mod_cast h
+  rw [run_eq]
+  simp only [evaluate, evaluateFrom, ex_bind, ex_setP, ex_getP, List.find?, beq_self_eq_true, hdeg,
+    if_false, h', if_true, ex_throw]
 
-/-- **constant_polynomial_spec**: a constant polynomial `c` (no mapping) is accepted at every input
-    level, consumes no level, and yields one operation — the addition of the coefficient to a fresh
-    zero ciphertext at the requested scale: level = input level, scale = target scale, value `c` in
-    every slot (mod `t`). -/
-theorem constant_polynomial_spec (env : Env) (c : Int) (lazy : Bool) (inLevel inScale tScale : Nat)
-    (x : List Int) :
+example : (3 : Nat) < depthCheck (([List.replicate 17 (1 : Int)].headD []).length - 1) := by decide
+
+/-- **constant_polynomial_spec**: a constant polynomial `c` (no mapping, the constructor's flags
+    `IsOdd = IsEven = true`) is accepted at every input level, consumes no level, and yields one
+    operation — the addition of the coefficient to a fresh zero ciphertext at the requested scale:
+    level = input level, scale = target scale, value `c` in every slot (mod `t`). -/
+theorem constant_polynomial_spec (env : Env) (ho : env.odd = true) (he : env.even = true) (c : Int) (lazy : Bool)
+    (inLevel inScale tScale : Nat) (x : List Int) :
     run env [[c]] none lazy inLevel inScale tScale x
       = ([s!"add({showOpd env { level := inLevel, scale := tScale, deg := 1, val := [] }},c)"], "ok",
          some { level := inLevel, scale := tScale, deg := 1,
                 val := zipV (fun a b => redV env (a + b)) (List.replicate env.slots 0)
                   (List.replicate env.slots c) }) := by
-  simp [run, evaluate, evalFromPowerBasis, addConst, log, coeffVec, SubPoly.degree, showOpd, setP,
-    ExceptT.run, bind, ExceptT.bind, ExceptT.mk, ExceptT.bindCont, StateT.bind,
-    StateT.run, modify, modifyGet, MonadStateOf.modifyGet, StateT.modifyGet, get, getThe, MonadStateOf.get,
-    StateT.get, liftM, ExceptT.lift, monadLift, MonadLift.monadLift, pure, ExceptT.pure,
-    StateT.pure, Functor.map, StateT.map]
+  rw [run_eq]
+  simp [evaluate, evaluateFrom, evalFromPowerBasis, addConst, coeffVec, showOpd, ho, he,
+    ex_bind, ex_getP, ex_map]
+
+example : ({ t := 65537, q := [1], cheb := false, slots := 4 } : Env).odd = true := rfl
 
 /-- **mulThenAdd_keeps_degree_two_part** (model of `Evaluator.MulThenAdd(ct, scalar|vector, acc)` after
     C13-1): the accumulator keeps the larger degree and takes the smaller level, so the degree-2 part
@@ -150,6 +153,63 @@ theorem unmapped_slots_zero (env : Env) (m : List (List Nat)) (coeffs : List (Li
     (coeffVec env (some m) coeffs k).getD j 0 = 0 :=
   coeffVec_unmapped env m coeffs k j hj hun
 
+/-! ## user-set flags, the caller's basis, the scale-invariant mode (witnesses on the machine) -/
+
+/-- with `IsOdd = IsEven` (both set, the constructor's default, or both cleared) `Factorize` skips nothing -/
+theorem factorizeF_default {R : Type} (O : ValOps R) (cheb b : Bool) (n : Nat) (p : List R) :
+    factorizeF O cheb b b n p = factorize O cheb n p := by
+  simp [factorizeF]
+
+/-- the bgv instance of the witnesses below: `t = 65537`, three levels -/
+def envW (odd even inv : Bool) : Env :=
+  { t := 65537, q := [705, 16321, 16577], cheb := false, slots := 2, odd := odd, even := even, inv := inv }
+
+/-- **even_flag_refused** (finding C13-5, a counterexample to "odd/even/general polynomials evaluate"):
+    the EVEN polynomial `5 + 11·X²`, truthfully flagged `IsOdd = false, IsEven = true`, is refused by the
+    bgv evaluator with an error although the input has the levels it needs (the unflagged evaluation
+    returns `5 + 11·x²`).  The quotient `[11]` has one coefficient; `minimumDegreeNonZeroCoefficient`
+    is `len-1 = 0` DEcremented for even-and-not-odd, so the constant path is missed and the accumulator
+    is allocated with `maximumCiphertextDegree = 0`; `EvaluateMonomial` then multiplies a degree-0
+    "ciphertext".  Test by evaluation of the machine (the tie lines reproduce it on the real code). -/
+theorem even_flag_refused :
+    (run (envW false true false) [[5, 0, 11]] none false 2 1 1 [2, 3]).2.1 = "err" ∧
+    (run (envW true true false) [[5, 0, 11]] none false 2 1 1 [2, 3]).2.2.map (·.val) = some [49, 104] := by
+  decide +kernel
+
+/-- **flags_cleared_drop_constants** (finding C13-4): with `IsOdd = IsEven = false` — "neither odd nor
+    even" — every power is used but the constant coefficient of every baby step is dropped (it is
+    added only under `IsEven`): `5 + 7·X` evaluates to `7·x`. -/
+theorem flags_cleared_drop_constants :
+    (run (envW false false false) [[5, 7]] none false 1 1 1 [2, 3]).2.2.map (·.val) = some [14, 21] ∧
+    (run (envW true true false) [[5, 7]] none false 1 1 1 [2, 3]).2.2.map (·.val) = some [19, 26] := by
+  decide +kernel
+
+/-- **bfv_no_level_consumed**: in the scale-invariant mode the output level is the input level and the
+    output scale the requested one (degree 3 at level 2; the standard mode ends at level 0) -/
+theorem bfv_no_level_consumed :
+    (run (envW true true true) [[5, 7, 11, 13]] none false 2 1 9 [2, 3]).2.2.map (fun o => (o.level, o.scale, o.val))
+      = some (2, 9, [167, 476]) ∧
+    (run (envW true true false) [[5, 7, 11, 13]] none false 2 1 9 [2, 3]).2.2.map (fun o => (o.level, o.scale, o.val))
+      = some (0, 9, [167, 476]) := by
+  decide +kernel
+
+/-- **bfv_refused_below_depth** (observation C13-6): the scale-invariant mode consumes no level, yet an
+    input below `Depth() = ⌈log2 deg⌉` levels is refused (`levelsConsumedPerRescaling·Depth()` is
+    checked whatever the mode): degree 3 at level 1 -/
+theorem bfv_refused_below_depth :
+    run (envW true true true) [[5, 7, 11, 13]] none false 1 1 1 [2, 3] = ([], "err", none) :=
+  too_few_levels _ _ _ _ _ _ _ _ (by decide)
+
+/-- **prefilled_basis**: `EvaluateFromPowerBasis` on a basis that already holds `X²` and a lazily
+    generated `X³` returns the same operand as `Evaluate` and only emits what is left to do -/
+theorem prefilled_basis :
+    (runFrom (envW true true false) [.gen 2 false, .gen 3 true] [[5, 7, 11, 13, 17]] none true 2 1 1 [2, 3]).2.2.map
+        (fun o => (o.level, o.scale, o.val))
+      = (run (envW true true false) [[5, 7, 11, 13, 17]] none true 2 1 1 [2, 3]).2.2.map (fun o => (o.level, o.scale, o.val)) ∧
+    (runFrom (envW true true false) [.gen 2 false, .gen 3 true] [[5, 7, 11, 13, 17]] none true 2 1 1 [2, 3]).1.length
+      < (run (envW true true false) [[5, 7, 11, 13, 17]] none true 2 1 1 [2, 3]).1.length := by
+  decide +kernel
+
 #print axioms splitDegree_spec
 #print axioms powerbasis_spec_monomial
 #print axioms powerbasis_spec_chebyshev
@@ -165,5 +225,11 @@ theorem unmapped_slots_zero (env : Env) (m : List (List Nat)) (coeffs : List (Li
 #print axioms mulThenAdd_keeps_degree_two_part
 #print axioms factorize_guard_spec
 #print axioms unmapped_slots_zero
+#print axioms factorizeF_default
+#print axioms even_flag_refused
+#print axioms flags_cleared_drop_constants
+#print axioms bfv_no_level_consumed
+#print axioms bfv_refused_below_depth
+#print axioms prefilled_basis
 
 end Lattigo.Props.C13
